@@ -526,7 +526,7 @@ impl<'a> GeneratorState<'a> {
                                             }
                                             let signed = self.asm(
                                                 LDA,
-                                                &ExprType::Absolute(var, false, l * 256),
+                                                &ExprType::Absolute(var, false, l.wrapping_mul(256)),
                                                 pos,
                                                 true,
                                             )?;
@@ -575,7 +575,7 @@ impl<'a> GeneratorState<'a> {
                                             }
                                             let signed = self.asm(
                                                 LDA,
-                                                &ExprType::Absolute(var, false, -l * 256),
+                                                &ExprType::Absolute(var, false, l.wrapping_neg().wrapping_mul(256)),
                                                 pos,
                                                 true,
                                             )?;
